@@ -24,8 +24,8 @@ EXTENDS Bounds, TLC, Json, IOUtils
 
 Cases == JsonDeserialize(IOEnv.CASES_FILE)
 
-VARIABLES i, bad, nodes, envs, tightNodes
-vars == <<i, bad, nodes, envs, tightNodes>>
+VARIABLES i, bad, nodes, envs, tightNodes, evals
+vars == <<i, bad, nodes, envs, tightNodes, evals>>
 
 -----------------------------------------------------------------------------
 (* Environments *)
@@ -54,42 +54,56 @@ EnvsOver(c, S) ==
 \* the constant the compiler substituted for a $upper_bound/$lower_bound node
 BoundConst(t) == IF t.ty.t = "i" /\ ~t.ty.missing /\ ~t.ty.huge THEN t.ty.rem ELSE 0
 
+\* NOTE (TLC): a function constructor [j \in 1..n |-> e] is evaluated lazily at every application,
+\* so memo tables are built as tuples by explicit recursion instead.
 RECURSIVE EvalAll(_, _)
+RECURSIVE EvalArgs(_, _, _)
 RECURSIVE ConcatAll(_, _)
+RECURSIVE Heads(_, _)
 ConcatAll(ss, j) == IF j > Len(ss) THEN <<>> ELSE ss[j] \o ConcatAll(ss, j + 1)
+Heads(ss, j) == IF j > Len(ss) THEN <<>> ELSE <<ss[j][1]>> \o Heads(ss, j + 1)
+EvalArgs(args, j, rho) == IF j > Len(args) THEN <<>> ELSE <<EvalAll(args[j], rho)>> \o EvalArgs(args, j + 1, rho)
 EvalAll(t, rho) ==
   CASE t.k \in {"int", "bool"} -> <<t.v>>
     [] t.k = "var" -> <<rho[t.n]>>
     [] t.k \in {"vref", "cref"} -> LET sub == EvalAll(t.e, rho) IN <<sub[1]>> \o sub
     [] t.k = "op" ->
-         LET subs == [j \in 1..Len(t.args) |-> EvalAll(t.args[j], rho)]
-         IN  <<ApplyFn(t.fn, [j \in 1..Len(t.args) |-> subs[j][1]], BoundConst(t))>> \o ConcatAll(subs, 1)
+         LET subs == EvalArgs(t.args, 1, rho)
+         IN  <<ApplyFn(t.fn, Heads(subs, 1), BoundConst(t))>> \o ConcatAll(subs, 1)
 
 \* pre-order summaries aligned with EvalAll: kids = offsets of the children relative to the node
 RECURSIVE Flat(_)
+RECURSIVE FlatArgs(_, _)
 RECURSIVE KidOffsets(_, _, _)
 KidOffsets(subs, j, off) ==
   IF j > Len(subs) THEN <<>> ELSE <<off>> \o KidOffsets(subs, j + 1, off + Len(subs[j]))
 Summary(t, size, kids) ==
   [k |-> t.k, fn |-> IF t.k = "op" THEN t.fn ELSE "", n |-> IF t.k \in {"var", "vref", "cref"} THEN t.n ELSE "",
    v |-> IF t.k \in {"int", "bool"} THEN t.v ELSE 0, ty |-> t.ty, cv |-> t.cv, size |-> size, kids |-> kids]
+FlatArgs(args, j) == IF j > Len(args) THEN <<>> ELSE <<Flat(args[j])>> \o FlatArgs(args, j + 1)
 Flat(t) ==
   CASE t.k \in {"int", "bool", "var"} -> <<Summary(t, 1, <<>>)>>
     [] t.k \in {"vref", "cref"} -> LET sub == Flat(t.e) IN <<Summary(t, 1 + Len(sub), <<1>>)>> \o sub
     [] t.k = "op" ->
-         LET subs == [j \in 1..Len(t.args) |-> Flat(t.args[j])]
+         LET subs == FlatArgs(t.args, 1)
              all == ConcatAll(subs, 1)
          IN  <<Summary(t, 1 + Len(all), KidOffsets(subs, 1, 1))>> \o all
 
+\* column j of the table of value vectors = the value set of node j
+RECURSIVE Columns(_, _, _)
+Columns(Vals, j, n) == IF j > n THEN <<>> ELSE <<{v[j] : v \in Vals}>> \o Columns(Vals, j + 1, n)
+
 \* the generated expression, as read back (annotations dropped, references by name)
 RECURSIVE Strip(_)
+RECURSIVE StripArgs(_, _)
+StripArgs(args, j) == IF j > Len(args) THEN <<>> ELSE <<Strip(args[j])>> \o StripArgs(args, j + 1)
 Strip(t) ==
   CASE t.k = "int" -> [k |-> "int", v |-> t.v]
     [] t.k = "bool" -> [k |-> "bool", v |-> t.v]
     [] t.k = "var" -> [k |-> "var", n |-> t.n]
     [] t.k = "cref" -> [k |-> "cref", n |-> t.n]
     [] t.k = "vref" -> IF t.e.k = "var" THEN [k |-> "var", n |-> t.e.n] ELSE [k |-> "vref", n |-> t.n]
-    [] t.k = "op" -> [k |-> "op", fn |-> t.fn, args |-> [j \in 1..Len(t.args) |-> Strip(t.args[j])]]
+    [] t.k = "op" -> [k |-> "op", fn |-> t.fn, args |-> StripArgs(t.args, 1)]
 
 -----------------------------------------------------------------------------
 (* Per-node clauses *)
@@ -99,6 +113,9 @@ ToAbs(ty) == Abs(ty.min, ty.max, ty.mod, ty.rem)
 
 \* what the design's transfer function yields from the children's recorded annotations
 \* (defined when the children it needs are well-recorded integers)
+\* products of recorded numbers must stay inside TLC's 32-bit integers
+MulSafe(ty) == LET ok(n) == -30000 <= n /\ n <= 30000
+               IN  ok(ty.mod) /\ ok(ty.rem) /\ (ty.min.inf = 0 => ok(ty.min.v)) /\ (ty.max.inf = 0 => ok(ty.max.v))
 DesignDefined(c, F, j) ==
   LET s == F[j]
       kid(m) == F[j + s.kids[m]]
@@ -106,7 +123,8 @@ DesignDefined(c, F, j) ==
         [] s.k = "var" -> KnownVar(c, s.n)
         [] s.k \in {"vref", "cref"} -> IntOK(kid(1).ty)
         [] s.k = "op" /\ s.fn = "?:" -> kid(1).ty.t = "b" /\ IntOK(kid(2).ty) /\ IntOK(kid(3).ty)
-        [] s.k = "op" /\ s.fn \in IntFns \ {"?:"} -> \A m \in 1..Len(s.kids) : IntOK(kid(m).ty)
+        [] s.k = "op" /\ s.fn = "*" -> \A m \in 1..2 : IntOK(kid(m).ty) /\ MulSafe(kid(m).ty)
+        [] s.k = "op" /\ s.fn \in IntFns \ {"?:", "*"} -> \A m \in 1..Len(s.kids) : IntOK(kid(m).ty)
         [] OTHER -> FALSE
 Design(c, F, j) ==
   LET s == F[j]
@@ -135,8 +153,10 @@ CondsFree(F, S, j) ==
        IN  S[cnd] = {TRUE, FALSE} \/ (F[cnd].ty.t = "b" /\ F[cnd].ty.has)
 InTightFragment(F, S, j) == NoRepeatedVar(F, j) /\ CondsFree(F, S, j)
 
+\* a failure is "primary" unless an integer operand of the node fails the same clause (then the
+\* node merely inherits the operand's wrong annotation); used only to give violations stable names
 Fail(c, role, j, s, clause, wit) ==
-  [id |-> c.id, role |-> role, node |-> j, clause |-> clause,
+  [id |-> c.id, role |-> role, node |-> j, clause |-> clause, primary |-> TRUE,
    what |-> IF s.k = "op" THEN s.fn ELSE IF s.k = "var" THEN "var:" \o VarRec(c, s.n).k ELSE s.k,
    ty |-> s.ty, wit |-> wit]
 
@@ -145,15 +165,18 @@ NodeFails(c, role, F, S, j) ==
       Sj == S[j]
       a == ToAbs(s.ty)
       W(P(_)) == IF \E v \in Sj : P(v) THEN <<CHOOSE v \in Sj : P(v)>> ELSE <<>>
+      KidsPass(P(_, _)) == \A m \in 1..Len(s.kids) :
+                             LET q == j + s.kids[m] IN IntOK(F[q].ty) => P(ToAbs(F[q].ty), S[q])
+      Inherit(f, P(_, _)) == [f EXCEPT !.primary = KidsPass(P)]
   IN  (IF s.ty.t # "i" THEN {}
        ELSE IF s.ty.missing THEN {Fail(c, role, j, s, "Missing", <<>>)}
        ELSE IF s.ty.huge THEN {Fail(c, role, j, s, "OutOfModelRange", <<>>)}
        ELSE
          (IF WellFormed(a) THEN {} ELSE {Fail(c, role, j, s, "WellFormed", <<>>)})
-         \cup (IF Sound(a, Sj) THEN {} ELSE {Fail(c, role, j, s, "Sound", W(LAMBDA v : ~InGamma(v, a)))})
-         \cup (IF ConstExact(a, Sj) THEN {} ELSE {Fail(c, role, j, s, "ConstExact", W(LAMBDA v : v # a.rem))})
+         \cup (IF Sound(a, Sj) THEN {} ELSE {Inherit(Fail(c, role, j, s, "Sound", W(LAMBDA v : ~InGamma(v, a))), Sound)})
+         \cup (IF ConstExact(a, Sj) THEN {} ELSE {Inherit(Fail(c, role, j, s, "ConstExact", W(LAMBDA v : v # a.rem)), ConstExact)})
          \cup (IF InTightFragment(F, S, j) /\ ~Tight(a, Sj)
-               THEN {Fail(c, role, j, s, "Tight", <<>>)} ELSE {})
+               THEN {Inherit(Fail(c, role, j, s, "Tight", <<>>), Tight)} ELSE {})
          \cup (IF DesignDefined(c, F, j) /\ ~AtLeastAsPrecise(a, Design(c, F, j))
                THEN {Fail(c, role, j, s, "Precision", <<>>)} ELSE {})
          \cup (IF s.k = "op" /\ s.fn \in {"$upper_bound", "$lower_bound"} /\ ~IsConstAbs(a)
@@ -167,30 +190,32 @@ NodeFails(c, role, F, S, j) ==
       \cup (IF s.ty.t \in {"b", "e"} /\ s.ty.has /\ Sj # {s.ty.v}
             THEN {Fail(c, role, j, s, "ConstExact", W(LAMBDA v : v # s.ty.v))} ELSE {})
       \cup (IF s.ty.t = "e" /\ s.ty.huge THEN {Fail(c, role, j, s, "OutOfModelRange", <<>>)} ELSE {})
-      \cup (IF s.cv.exc # "" THEN {Fail(c, role, j, s, "ConstantValueRaised", <<>>)} ELSE {})
+      \* constant folding raised here although it did not raise on any operand (the originating node)
+      \cup (IF s.cv.exc # "" /\ \A m \in 1..Len(s.kids) : F[j + s.kids[m]].cv.exc = ""
+            THEN {Fail(c, role, j, s, "ConstantValueRaised", <<>>)} ELSE {})
       \cup (IF s.cv.has /\ s.cv.huge THEN {Fail(c, role, j, s, "OutOfModelRange", <<>>)} ELSE {})
       \cup (IF s.cv.has /\ ~s.cv.huge /\ Sj # {s.cv.v}
             THEN {Fail(c, role, j, s, "ConstantValue", W(LAMBDA v : v # s.cv.v))} ELSE {})
 
 UnknownVars(c, t) == {n \in VarsOf(t) : ~KnownVar(c, n)}
 
-NoRes == [fails |-> {}, n |-> 0, envs |-> 0, tight |-> 0]
+NoRes == [fails |-> {}, n |-> 0, envs |-> 0, tight |-> 0, evals |-> 0]
 
 \* one tree: all environments, all nodes
 TreeRes(c, tr) ==
   IF UnknownVars(c, tr.t) # {}
   THEN [NoRes EXCEPT !.fails = {[id |-> c.id, role |-> tr.role, node |-> 0, clause |-> "UnknownVariable",
-                                 what |-> "", ty |-> <<>>, wit |-> <<>>]}]
+                                 primary |-> TRUE, what |-> "", ty |-> <<>>, wit |-> <<>>]}]
   ELSE LET F == Flat(tr.t)
            E == EnvsOver(c, VarsOf(tr.t))
            Vals == {EvalAll(tr.t, rho) : rho \in E}
-           S == [j \in 1..Len(F) |-> {v[j] : v \in Vals}]
+           S == Columns(Vals, 1, Len(F))
        IN  [fails |-> UNION {NodeFails(c, tr.role, F, S, j) : j \in 1..Len(F)},
-            n |-> Len(F), envs |-> Cardinality(E),
+            n |-> Len(F), envs |-> Cardinality(E), evals |-> Len(F) * Cardinality(E),
             tight |-> Cardinality({j \in 1..Len(F) : IntOK(F[j].ty) /\ F[j].k \in {"op", "var"}
                                                       /\ InTightFragment(F, S, j)})]
 
-CaseFail(c, clause) == [id |-> c.id, role |-> "", node |-> 0, clause |-> clause, what |-> "", ty |-> <<>>, wit |-> <<>>]
+CaseFail(c, clause) == [id |-> c.id, role |-> "", node |-> 0, clause |-> clause, primary |-> TRUE, what |-> "", ty |-> <<>>, wit |-> <<>>]
 
 \* the tree of `let v` must be the generated expression (guards the renderer and the recorder)
 LetTrees(c) == {k \in 1..Len(c.trees) : c.trees[k].role = "f:v:value"}
@@ -201,7 +226,7 @@ SumTrees(c, k, acc) ==
   IF k > Len(c.trees) THEN acc
   ELSE LET r == TreeRes(c, c.trees[k])
        IN  SumTrees(c, k + 1, [fails |-> acc.fails \cup r.fails, n |-> acc.n + r.n, envs |-> acc.envs + r.envs,
-                               tight |-> acc.tight + r.tight])
+                               tight |-> acc.tight + r.tight, evals |-> acc.evals + r.evals])
 
 CaseRes(c) ==
   IF c.status = "exception" THEN [NoRes EXCEPT !.fails = {CaseFail(c, "FrontEndException")}]
@@ -213,7 +238,7 @@ CaseRes(c) ==
 \* expression under a state variable is re-evaluated without sharing and is orders of magnitude slower.
 Results == [k \in 1..Len(Cases) |-> CaseRes(Cases[k])]
 
-Init == i = 0 /\ bad = 0 /\ nodes = 0 /\ envs = 0 /\ tightNodes = 0
+Init == i = 0 /\ bad = 0 /\ nodes = 0 /\ envs = 0 /\ tightNodes = 0 /\ evals = 0
 
 Step ==
   /\ i < Len(Cases)
@@ -223,6 +248,7 @@ Step ==
          /\ nodes' = nodes + r.n
          /\ envs' = envs + r.envs
          /\ tightNodes' = tightNodes + r.tight
+         /\ evals' = evals + r.evals
   /\ i' = i + 1
 
 Next == Step
@@ -230,5 +256,5 @@ Next == Step
 \* "invariant" used only to print the totals in the last state
 Finished == i = Len(Cases) =>
               PrintT(ToJson([summary |-> TRUE, cases |-> i, failures |-> bad, nodes |-> nodes, envs |-> envs,
-                             tight |-> tightNodes]))
+                             tight |-> tightNodes, evals |-> evals]))
 =============================================================================
